@@ -42,9 +42,12 @@ class VerusResult:
         self.cmd = ''
         self.wall_s = 0.0
         self.raw_stderr = ''
+        self.hard = []
 
 
 KIND_RULES = [
+    (re.compile(r'^precondition not met: index in bounds'), 'index'),
+    (re.compile(r'^precondition not met'), 'precondition'),
     (re.compile(r'^postcondition not satisfied'), 'postcondition'),
     (re.compile(r'^precondition not satisfied'), 'precondition'),
     (re.compile(r'^assertion failed'), 'assertion'),
@@ -140,6 +143,7 @@ def run_verus(path, workdir, rlimit=None, extra=(), timeout=900, threads=None):
             continue
         res.errors.append(dict(kind=kind, message=msg, spans=_flatten_spans(d), rendered=d.get('rendered', ''),
                                notes=[c.get('message', '') for c in d.get('children', [])]))
+    res.hard = [dict(message=h.get('message', ''), spans=_flatten_spans(h), rendered=h.get('rendered', '')) for h in hard]
     if hard or not verification_ran:
         res.fatal = 'verus front-end / unsupported-construct error(s):\n' + '\n'.join(
             (h.get('rendered') or h.get('message', ''))[:1500] for h in hard[:6]) if hard else \
